@@ -30,10 +30,10 @@ pub const SUBS: &[SubDef] = &[
 ];
 
 fn run(ctx: &Ctx) {
-    ctx.run_tape("tls_parsed", tls_parsed, ctx.pick(6_000, 300_000), 400);
-    ctx.run_tape("dtls_parsed", dtls_parsed, ctx.pick(4_000, 200_000), 400);
-    ctx.run_tape("constructed", constructed, ctx.pick(6_000, 300_000), 300);
-    ctx.run_tape("server", server, ctx.pick(4_000, 200_000), 200);
+    ctx.run_tape("tls_parsed", tls_parsed, ctx.pick(120_000, 300_000), 400);
+    ctx.run_tape("dtls_parsed", dtls_parsed, ctx.pick(80_000, 200_000), 400);
+    ctx.run_tape("constructed", constructed, ctx.pick(120_000, 300_000), 300);
+    ctx.run_tape("server", server, ctx.pick(80_000, 200_000), 200);
 }
 
 fn same(a: &[u8], b: &[u8]) -> bool {
